@@ -264,6 +264,8 @@ def main(argv):
     t0 = time.time()
     parts = []
     for eng in spec["engines"]:
+        if os.environ.get("VERIF_ONLY_ENGINE") and eng["kind"] != os.environ["VERIF_ONLY_ENGINE"]:
+            continue
         if eng["kind"] == "S":
             parts.append(run_symx(prop, tier, seed, eng))
         elif eng["kind"] == "K":
